@@ -26,6 +26,8 @@ impl ChainStorage {
 
     /// Returns the block at the given height
     pub fn get_block(&mut self, height: u64) -> Result<Option<Block>> {
+        #[cfg(feature = "verif-sim")]
+        crate::common::simio::mark(height);
         // Read block
         let block_meta = match self.chain_index.get(height) {
             Some(block_meta) => block_meta,
